@@ -191,18 +191,18 @@ def _ptc(path, const):
 
 
 def _cptr(path, const):
-    """a const pointer `int* const c = &x`: the protected object is the pointer itself (its target)"""
+    """a const pointer `int* const c = &x[1]`: the protected object is the pointer itself (its target)"""
     q = " const" if const else ""
-    decl = "int x = 61; int y = 62; int*%s c = &x;" % q
+    decl = "int[3] x = [61, 62, 63]; int y = 64; int*%s c = &x[1];" % q
     obs = "println(*c);"
     if path == "assign":
         att = "c = &y;"
     elif path == "compound":
-        att = "c += 1; c -= 1; c = &y;"
+        att = "c += 1;"
     elif path == "postinc":
-        att = "c++; c = &y;"
+        att = "c++;"
     elif path == "predec":
-        att = "--c; c = &y;"
+        att = "--c;"
     elif path == "addr_decl":
         att = "int** pp = &c; *pp = &y;"
     elif path == "addr_asg":
@@ -242,3 +242,541 @@ def classify(rc, out, err):
     if rc == 1 and len(lines) == 2:
         return "late-error-unchanged" if lines[0] == lines[1] else "late-error-changed"
     return "other(rc=%d,lines=%d)" % (rc, len(lines))
+
+
+# ====================================================================================================
+# Scripts of the machine coq/C09/ConstPtr.v (text format documented in ocaml/c09_driver.ml)
+# ====================================================================================================
+
+def parse_script(line):
+    os_, ps_, ops_ = line.split("|")
+    objs = []
+    for it in [x.strip() for x in os_.split(";") if x.strip()]:
+        sh, c, mc, vs = it.split(",")
+        vals = [int(v) for v in vs.split()]
+        objs.append({"shape": sh, "const": c == "1", "mconst": [] if mc == "-" else [b == "1" for b in mc], "vals": vals})
+    ptrs = []
+    for it in [x.strip() for x in ps_.split(";") if x.strip()]:
+        t, pc, cc = it.split(",")
+        ptrs.append({"tgt": parse_tgt(t), "pc": pc == "1", "cc": cc == "1"})
+    ops = [x.strip().split() for x in ops_.split(";") if x.strip()]
+    return objs, ptrs, ops
+
+
+def parse_tgt(t):
+    if t == "n":
+        return None
+    if t[0] == "o":
+        return ("o", int(t[1:]))
+    o, k = t[1:].split(".")
+    return ("s", int(o), int(k))
+
+
+def parse_snap(s):
+    vs, ts = s.split("#")
+    vals = [[int(v) for v in o.split(",")] if o else [] for o in vs.split("/")] if vs else []
+    tg = [parse_tgt(t) for t in ts.split(",")] if ts else []
+    return vals, tg
+
+
+def _desig(objs, o, k):
+    sh = objs[o]["shape"]
+    if sh == "s":
+        return "o%d" % o
+    if sh == "a":
+        return "o%d[%d]" % (o, k)
+    return "o%d.m%d" % (o, k)
+
+
+def _src_text(objs, src):
+    if src[0] == "=":
+        return "p%s" % src[1:]
+    t = parse_tgt(src[1:])
+    if t[0] == "o":
+        return "&o%d" % t[1]
+    return "&" + _desig(objs, t[1], t[2])
+
+
+def _src_base(objs, ptr_base, src):
+    if src[0] == "=":
+        q = int(src[1:])
+        return ptr_base[q] if q < len(ptr_base) else "int"
+    t = parse_tgt(src[1:])
+    return "T%d" % t[1] if t[0] == "o" else "int"
+
+
+def obs_line(objs, tgts):
+    """the println that shows every slot of every object and what every non-null pointer points at"""
+    args = []
+    for o, ob in enumerate(objs):
+        for k in range(len(ob["vals"])):
+            args.append(_desig(objs, o, k))
+    for p, t in enumerate(tgts):
+        if t is None:
+            continue
+        args.append("*p%d" % p if t[0] == "s" else "p%d->m0" % p)
+    return "println(%s);" % ", ".join(args)
+
+
+def expected_line(vals, tgts):
+    out = [str(v) for ob in vals for v in ob]
+    for t in tgts:
+        if t is None:
+            continue
+        out.append(str(vals[t[1]][t[2]] if t[0] == "s" else vals[t[1]][0]))
+    return " ".join(out)
+
+
+def render_script(line, free_snaps, globs=()):
+    """Cb program for a script. `free_snaps` = the snapshots of the FREE run (one per op): they give the
+    pointer structure after every op, which fixes what each observation prints."""
+    objs, ptrs, ops = parse_script(line)
+    pre, gl, body = [], [], []
+    for o, ob in enumerate(objs):
+        if ob["shape"] == "t":
+            pre.append("struct T%d { %s };" % (o, " ".join("%sint m%d;" % ("const " if (k < len(ob["mconst"]) and ob["mconst"][k]) else "", k)
+                                                           for k in range(len(ob["vals"])))))
+    for o, ob in enumerate(objs):
+        q = "const " if ob["const"] else ""
+        if ob["shape"] == "s":
+            d = "%sint o%d = %d;" % (q, o, ob["vals"][0])
+        elif ob["shape"] == "a":
+            d = "%sint[%d] o%d = [%s];" % (q, len(ob["vals"]), o, ", ".join(map(str, ob["vals"])))
+        else:
+            d = "%sT%d o%d = {%s};" % (q, o, o, ", ".join(map(str, ob["vals"])))
+        (gl if o in globs else body).append(d)
+    ptr_base = []
+    for p, pt in enumerate(ptrs):
+        t = pt["tgt"]
+        base = "int" if (t is None or t[0] == "s") else "T%d" % t[1]
+        ptr_base.append(base)
+        init = "" if t is None else " = " + ("&o%d" % t[1] if t[0] == "o" else "&" + _desig(objs, t[1], t[2]))
+        body.append("%s%s*%s p%d%s;" % ("const " if pt["pc"] else "", base, " const" if pt["cc"] else "", p, init))
+    tg0 = [pt["tgt"] for pt in ptrs]
+    body.append(obs_line(objs, tg0))
+    nfun = 0
+    for i, w in enumerate(ops):
+        k = w[0]
+        if k == "D":
+            d = _desig(objs, int(w[2]), int(w[3]))
+            u = int(w[4])
+            if w[1] == "a":
+                st = "%s = %d;" % (d, u)
+            elif w[1] == "c":
+                st = "%s %s= %d;" % (d, "+" if u >= 0 else "-", abs(u))
+            else:
+                st = "%s++;" % d if u >= 0 else "--%s;" % d
+        elif k == "W":
+            o = int(w[1])
+            vs = ", ".join(w[2:])
+            if objs[o]["shape"] == "a":
+                st = "o%d = [%s];" % (o, vs)
+            else:
+                st = "T%d tmp%d = {%s}; o%d = tmp%d;" % (o, i, vs, o, i)
+        elif k == "N":
+            p = len(ptr_base)
+            if w[3] == "-":
+                base = "int"
+                for w2 in ops[i + 1:]:          # the first assignment fixes the pointee type
+                    if w2[0] == "P" and int(w2[1]) == p:
+                        base = _src_base(objs, ptr_base, w2[2])
+                        break
+                init = ""
+            else:
+                base = _src_base(objs, ptr_base, w[3])
+                init = " = " + _src_text(objs, w[3])
+            ptr_base.append(base)
+            st = "%s%s*%s p%d%s;" % ("const " if w[1] == "1" else "", base, " const" if w[2] == "1" else "", p, init)
+        elif k == "P":
+            st = "p%s = %s;" % (w[1], _src_text(objs, w[2]))
+        elif k == "T":
+            p, m, u = w[2], w[3], int(w[4])
+            st = {"d": "*p%s = %d;" % (p, u),
+                  "i": ("(*p%s)++;" % p) if u >= 0 else ("--(*p%s);" % p),
+                  "e": "*(p%s + 0) = %d;" % (p, u),
+                  "m": "(*p%s).m%s = %d;" % (p, m, u),
+                  "a": "p%s->m%s = %d;" % (p, m, u)}[w[1]]
+        elif k == "R":
+            o, kk, u = int(w[3]), int(w[4]), int(w[5])
+            q = "const " if w[2] == "1" else ""
+            ty = "int" if objs[o]["shape"] == "s" else "T%d" % o
+            acc = "r" if objs[o]["shape"] == "s" else "r.m%d" % kk
+            if w[1] == "1":
+                nfun += 1
+                pre.append("void rf%d(%s%s& r) { %s = %d; }" % (nfun, q, ty, acc, u))
+                st = "rf%d(o%d);" % (nfun, o)
+            else:
+                st = "%s%s& r%d = o%d; %s = %d;" % (q, ty, i, o, acc.replace("r", "r%d" % i, 1), u)
+        elif k == "C":
+            nfun += 1
+            pre.append("void pf%d(int* q) { *q = %d; }" % (nfun, int(w[2])))
+            st = "pf%d(%s);" % (nfun, _src_text(objs, w[1]))
+        elif k == "M":
+            p, d = w[2], int(w[3])
+            if w[1] == "a":
+                st = "p%s = p%s %s %d;" % (p, p, "+" if d >= 0 else "-", abs(d))
+            elif w[1] == "c":
+                st = "p%s %s= %d;" % (p, "+" if d >= 0 else "-", abs(d))
+            else:
+                st = "p%s++;" % p if d >= 0 else "--p%s;" % p
+        else:
+            raise ValueError(w)
+        body.append(st)
+        if i < len(free_snaps):
+            body.append(obs_line(objs, parse_snap(free_snaps[i])[1]))
+    return "\n".join(pre + gl) + ("\n" if pre or gl else "") + "void main() {\n" + "\n".join("  " + b for b in body) + "\n}\n"
+
+
+def expected_transcript(run, init_snap):
+    """(stdout, failed?) a policy's run demands: one line for the start state, one per accepted op"""
+    outcome, snaps = run
+    lines = [expected_line(*parse_snap(init_snap))] + [expected_line(*parse_snap(s)) for s in snaps]
+    return "\n".join(lines) + "\n", outcome.startswith("rej")
+
+
+def parse_model_output(text):
+    """-> list of dicts {spec:(outcome,[snaps]), mech:..., free:..., inv:bool, init:snap} in input order"""
+    res, cur = [], {}
+    for l in text.split("\n"):
+        w = l.split(" ")
+        if w[0] in ("SPEC", "MECH", "FREE"):
+            cur[w[0].lower()] = (w[1], w[2:])
+        elif w[0] == "INV":
+            cur["inv"] = w[1] == "1"
+            cur["init"] = w[2]
+            res.append(cur)
+            cur = {}
+        elif w[0] == "ERROR":
+            res.append({"error": l})
+            cur = {}
+    return res
+
+
+# ---------------------------------------------------------------------------------------------------- random scripts
+DIRECT_SITE = {("s", "a"): "AssignVar", ("s", "c"): "CompoundVar", ("s", "i"): "IncDecVar",
+               ("a", "a"): "ElemStore", ("a", "c"): "ElemCompound", ("a", "i"): "ElemIncDec",
+               ("t", "a"): "MemberStore", ("t", "c"): "MemberCompound", ("t", "i"): "MemberIncDec"}
+PFORM_SITE = {"d": "DerefStore", "i": "DerefIncDec", "e": "DerefExprStore", "m": "DerefMember", "a": "ArrowStore"}
+MOVE_SITE = {"a": "ReseatAssign", "c": "ReseatCompound", "i": "ReseatIncDec"}
+
+
+def random_script(rng, attack=0.35, avoid=()):
+    """A well-formed script: objects, initial pointers that respect the discipline, 3..9 operations.
+    With probability `attack` an operation goes for something protected. `avoid` = names of check sites
+    (ocaml/c09_driver.ml site_s) through which no attack is made - one per recorded finding; with
+    "MemberIncDec" in it `s.m++` is not used at all (the implementation loses the new value)."""
+    objs = []
+    for i in range(rng.randint(2, 4)):
+        sh = rng.choice("ssaat")
+        n = {"s": 1, "a": rng.randint(2, 3), "t": 2}[sh]
+        cst = rng.random() < 0.5
+        mc = []
+        if sh == "t":
+            mc = [rng.random() < 0.3, False]
+        objs.append({"shape": sh, "const": cst, "mconst": mc, "vals": [10 * (i + 1) + k for k in range(n)]})
+
+    def prot(o, k):
+        return objs[o]["const"] or (k < len(objs[o]["mconst"]) and objs[o]["mconst"][k])
+
+    def tprot(t):
+        return objs[t[1]]["const"] if t[0] == "o" else prot(t[1], t[2])
+
+    all_slots = [(o, k) for o in range(len(objs)) for k in range(len(objs[o]["vals"]))]
+    structs = [o for o in range(len(objs)) if objs[o]["shape"] == "t"]
+    ptrs = []          # dict tgt, pc, cc, base
+
+    def src_choice(base):
+        """a pointer source of the given pointee type: (text, target, is-const-source, addr-kind)"""
+        c = []
+        if base == "int":
+            c += [("&s%d.%d" % (o, k), ("s", o, k), prot(o, k), "bare" if objs[o]["shape"] == "s" else "sub") for o, k in all_slots]
+        else:
+            o = int(base[1:])
+            c.append(("&o%d" % o, ("o", o), objs[o]["const"], "bare"))
+        c += [("=%d" % q, x["tgt"], x["pc"], "copy") for q, x in enumerate(ptrs) if x["base"] == base and x["tgt"] is not None]
+        return rng.choice(c) if c else None
+
+    def acq_site(kind, mode):
+        return {"bare": "Addr", "sub": "AddrSub", "copy": "PtrCopy"}[kind] + mode
+
+    init_ptrs = []
+    for _ in range(rng.randint(0, 2)):
+        base = "int" if (not structs or rng.random() < 0.75) else "T%d" % rng.choice(structs)
+        s = src_choice(base)
+        if s is None or s[3] == "copy":
+            continue
+        pc = s[2] or rng.random() < 0.3
+        cc = rng.random() < 0.3
+        ptrs.append({"tgt": s[1], "pc": pc, "cc": cc, "base": base})
+        init_ptrs.append("%s,%d,%d" % (s[0][1:], pc, cc))
+    ops = []
+    nops = rng.randint(3, 9)
+    tries = 0
+    while len(ops) < nops and tries < 200:
+        tries += 1
+        atk = rng.random() < attack
+        c = rng.random()
+        apply = None
+        if c < 0.28:
+            o, k = rng.choice(all_slots)
+            f = rng.choice("aci")
+            u = rng.choice([1, -1]) if f == "i" else rng.randint(1, 9)
+            site, viol = DIRECT_SITE[(objs[o]["shape"], f)], prot(o, k)
+            if site == "MemberIncDec" and site in avoid:
+                continue
+            text = "D %s %d %d %d" % (f, o, k, u)
+        elif c < 0.34:
+            cand = [o for o in range(len(objs)) if objs[o]["shape"] in "at"]
+            if not cand:
+                continue
+            o = rng.choice(cand)
+            viol = objs[o]["const"] or any(objs[o]["mconst"])
+            site = "WholeConst" if objs[o]["const"] else "WholeMemberConst"
+            text = "W %d %s" % (o, " ".join(str(rng.randint(1, 9)) for _ in objs[o]["vals"]))
+        elif c < 0.50:
+            if len(ptrs) >= 5:
+                continue
+            base = "int" if (not structs or rng.random() < 0.75) else "T%d" % rng.choice(structs)
+            pc = rng.random() < 0.4
+            cc = rng.random() < 0.25
+            if rng.random() < 0.15 and not cc:
+                site, viol, text = "AddrDecl", False, "N %d 0 -" % pc
+                newp = {"tgt": None, "pc": pc, "cc": False, "base": "int"}
+            else:
+                s = src_choice(base)
+                if s is None:
+                    continue
+                if s[2] and not atk:
+                    pc = True
+                site, viol = acq_site(s[3], "Decl"), (s[2] and not pc)
+                text = "N %d %d %s" % (pc, cc, s[0])
+                newp = {"tgt": s[1], "pc": pc, "cc": cc, "base": base}
+            apply = lambda newp=newp: ptrs.append(newp)
+        elif c < 0.60:
+            if not ptrs:
+                continue
+            p = rng.randrange(len(ptrs))
+            pt = ptrs[p]
+            s = src_choice(pt["base"])
+            if s is None or s[0] == "=%d" % p:
+                continue
+            if pt["cc"]:
+                site, viol = "ReseatAssign", True
+            else:
+                site, viol = acq_site(s[3], "Assign"), (s[2] and not pt["pc"])
+            text = "P %d %s" % (p, s[0])
+            apply = lambda pt=pt, s=s: pt.__setitem__("tgt", s[1])
+        elif c < 0.80:
+            live = [p for p, x in enumerate(ptrs) if x["tgt"] is not None]
+            if not live:
+                continue
+            p = rng.choice(live)
+            t = ptrs[p]["tgt"]
+            if t[0] == "s":
+                # (*p)++ is not implemented for a pointer to a struct member ("Invalid pointer target")
+                f = rng.choice("ddie" if objs[t[1]]["shape"] != "t" else "dde")
+                site, viol = PFORM_SITE[f], ptrs[p]["pc"]
+                text = "T %s %d 0 %d" % (f, p, rng.choice([1, -1]) if f == "i" else rng.randint(1, 9))
+            else:
+                f, m = rng.choice("ma"), rng.randrange(2)
+                site, viol = PFORM_SITE[f], ptrs[p]["pc"]
+                if not viol and objs[t[1]]["mconst"][m]:
+                    site, viol = "PtrMemberConst", True
+                text = "T %s %d %d %d" % (f, p, m, rng.randint(1, 9))
+        elif c < 0.88:
+            cand = [(o, k) for o, k in all_slots if objs[o]["shape"] in "st" and not (objs[o]["shape"] == "t" and objs[o]["mconst"][k])]
+            if not cand:
+                continue
+            o, k = rng.choice(cand)
+            param = rng.randint(0, 1)
+            rc = 1 if (atk and rng.random() < 0.3) else 0
+            if rc:
+                site, viol = "ConstRefStore", True
+            else:
+                site, viol = ("RefParam" if param else "RefLocal"), prot(o, k)
+            text = "R %d %d %d %d %d" % (param, rc, o, k, rng.randint(1, 9))
+        elif c < 0.94:
+            s = src_choice("int")
+            # a `T* const` variable cannot be passed to a `T*` parameter at all (call_impl.cpp:5626, stricter than needed)
+            if s is None or (s[3] == "copy" and ptrs[int(s[0][1:])]["cc"]) or s[1][0] != "s":
+                continue
+            site, viol = ("PtrCopyArg" if s[3] == "copy" else "AddrArg"), s[2]
+            text = "C %s %d" % (s[0], rng.randint(1, 9))
+        else:
+            cand = [p for p, x in enumerate(ptrs) if x["tgt"] is not None and x["tgt"][0] == "s" and objs[x["tgt"][1]]["shape"] == "a"]
+            if not cand:
+                continue
+            p = rng.choice(cand)
+            _, o, k = ptrs[p]["tgt"]
+            ds = [d for d in (1, -1) if 0 <= k + d < len(objs[o]["vals"])]
+            if not ds:
+                continue
+            d = rng.choice(ds)
+            f = rng.choice("aci")
+            site, viol = MOVE_SITE[f], ptrs[p]["cc"]
+            text = "M %s %d %d" % (f, p, d)
+            apply = lambda p=p, o=o, k=k, d=d: ptrs[p].__setitem__("tgt", ("s", o, k + d))
+        if viol != atk and rng.random() < 0.85:
+            continue
+        if viol and site in avoid:
+            continue
+        ops.append(text)
+        if apply:
+            apply()
+    os_ = ";".join("%s,%d,%s,%s" % (ob["shape"], ob["const"], "".join("1" if b else "0" for b in ob["mconst"]) or "-",
+                                    " ".join(map(str, ob["vals"]))) for ob in objs)
+    globs = tuple(o for o in range(len(objs)) if rng.random() < 0.4)
+    return "%s|%s|%s" % (os_, ";".join(init_ptrs), ";".join(ops)), globs
+
+
+# ====================================================================================================
+# CbCore programs (S-expressions for the shared reference interpreter coq/Lang) built around const objects
+# ====================================================================================================
+import gen_core
+
+ATTACK_FORMS = ["assign", "compound", "elem", "elem-compound", "incdec", "elem-incdec"]
+
+
+def ref_program(rng, avoid_incdec=True, attack_p=0.8):
+    """Globals / locals / statics, some const, read everywhere; then (with probability attack_p) ONE
+    mutation attempt on a const object at some nesting position, followed by statements that must
+    never run. Operands of the attempt cannot fail and have no effects (the implementation tests the
+    target before it evaluates the right-hand side; Ref evaluates the right-hand side first).
+    -> (sexpr, info)"""
+    g = gen_core.Gen(rng, gen_core.Opts(funcs=0, max_stmts=4, max_depth=2, expr_depth=2))
+    r = rng
+    globs, gsc, garr, consts, carrs = [], [], [], [], []
+    for _ in range(r.randint(1, 3)):
+        t = r.choice(["int", "long", "long", "short", "tiny", "uint", "char", "utiny"])
+        x = g.var()
+        cst = r.random() < 0.6
+        lo, hi = gen_core.RANGES[t]
+        v = max(lo, min(hi, r.choice([0, 1, 5, 100, hi, lo, -7])))
+        globs.append("(G %d %s %d () (%d))" % (cst, t, x, v))
+        gsc.append((x, t))
+        if cst:
+            consts.append((x, "global"))
+    for _ in range(r.randint(0, 2)):
+        x = g.var()
+        nd = r.choice([1, 1, 2])
+        dims = [r.randint(2, 3) for _ in range(nd)]
+        t = "long" if nd > 1 else r.choice(["int", "long", "short", "tiny"])
+        size = dims[0] * (dims[1] if nd > 1 else 1)
+        lo, hi = gen_core.RANGES[t]
+        cst = r.random() < 0.6
+        init = [str(r.randint(max(lo, -50), min(hi, 50))) for _ in range(size)]
+        globs.append("(G %d %s %d (%s) (%s))" % (cst, t, x, " ".join(map(str, dims)), " ".join(init)))
+        garr.append((x, t, dims, cst))
+        if cst:
+            carrs.append((x, dims, "global"))
+    ro = set(x for x, _ in consts)
+    genv = {"scalars": list(gsc), "arrays": list(garr), "ro": set(ro), "callable": [], "calls_ok": False}
+
+    def attack_stmt(kind_pool_scalars, kind_pool_arrays):
+        forms = []
+        if kind_pool_scalars:
+            forms += ["assign", "compound"] + ([] if avoid_incdec else ["incdec"])
+        if kind_pool_arrays:
+            forms += ["elem"]
+            if any(len(d) == 1 for _, d, _ in kind_pool_arrays):
+                forms += ["elem-compound"] + ([] if avoid_incdec else ["elem-incdec"])
+        if not forms:
+            return None, None
+        f = r.choice(forms)
+        rhs = str(r.choice([0, 1, 2, 3, 7]))
+        if f in ("assign", "compound", "incdec"):
+            x, where = r.choice(kind_pool_scalars)
+            if f == "assign":
+                return "(asg (v %d) %s)" % (x, rhs), (f, where)
+            if f == "compound":
+                return "(casg %s (v %d) %s)" % (r.choice(["+", "-", "*", "&", "|", "^"]), x, rhs), (f, where)
+            return "(incdec %d %d (v %d))" % (r.randint(0, 1), r.randint(0, 1), x), (f, where)
+        if f == "elem":
+            x, dims, where = r.choice(kind_pool_arrays)
+            return "(asg (idx %d %s) %s)" % (x, " ".join(str(r.randrange(d)) for d in dims), rhs), (f, where)
+        x, dims, where = r.choice([a for a in kind_pool_arrays if len(a[1]) == 1])
+        if f == "elem-compound":
+            return "(casg %s (idx %d %d) %s)" % (r.choice(["+", "-", "*", "&", "|", "^"]), x, r.randrange(dims[0]), rhs), (f, where)
+        return "(incdec %d %d (idx %d %d))" % (r.randint(0, 1), r.randint(0, 1), x, r.randrange(dims[0])), (f, where)
+
+    do_attack = r.random() < attack_p
+    where_attack = r.choice(["main", "main", "nested", "loop", "func", "func-local", "static"]) if do_attack else None
+    info = {"attack": None}
+    funcs = []
+    fid = 1
+    if where_attack in ("func", "func-local", "static") or r.random() < 0.4:
+        p1 = g.var()
+        fenv = {"scalars": genv["scalars"] + [(p1, "long")], "arrays": genv["arrays"], "ro": set(ro), "callable": [], "calls_ok": False}
+        body = g.stmts(fenv, 1, r.randint(0, 2), False, None)
+        sc_pool, ar_pool = list(consts), list(carrs)
+        if where_attack in ("func-local", "static") or r.random() < 0.5:
+            lx = g.var()
+            sta = 1 if where_attack == "static" else 0
+            body.append("(decl 1 %d %s %d %s)" % (sta, r.choice(["int", "long", "short"]), lx, r.choice(["3", "(bin + (v %d) 0)" % gsc[0][0] if gsc[0][1] in ("int", "short", "tiny") else "4"])))
+            body.append("(print 1 (v %d))" % lx)
+            if where_attack in ("func-local", "static"):
+                sc_pool, ar_pool = [(lx, where_attack)], []
+        if where_attack in ("func", "func-local", "static"):
+            a, meta = attack_stmt(sc_pool, ar_pool)
+            if a is None:
+                where_attack = "main"
+            else:
+                body.append("(print 1 100)")
+                body.append(a)
+                body.append("(print 1 101)")
+                info["attack"] = meta
+        body.append("(ret (bin + (v %d) 1))" % p1)
+        funcs.append("(F %d long ((%d long)) (%s))" % (fid, p1, " ".join(body)))
+    env = {"scalars": list(genv["scalars"]), "arrays": list(genv["arrays"]), "ro": set(ro), "callable": [], "calls_ok": False}
+    main = []
+    lconst, lcarr = [], []
+    for _ in range(r.randint(1, 3)):
+        x = g.var()
+        t = r.choice(["int", "long", "short", "tiny", "uint", "bool" if False else "int"])
+        cst = r.random() < 0.6
+        lo, hi = gen_core.RANGES[t]
+        main.append("(decl %d 0 %s %d %d)" % (cst, t, x, max(lo, min(hi, r.choice([0, 1, 9, 120, -3, 40000])))))
+        env["scalars"].append((x, t))
+        if cst:
+            env["ro"].add(x)
+            lconst.append((x, "local"))
+    if r.random() < 0.6:
+        x = g.var()
+        n = r.randint(2, 4)
+        t = r.choice(["int", "long", "short"])
+        cst = r.random() < 0.7
+        main.append("(arr %d %s %d (%d) (%s))" % (cst, t, x, n, " ".join(str(r.randint(-9, 9)) for _ in range(n))))
+        env["arrays"].append((x, t, [n], cst))
+        if cst:
+            lcarr.append((x, [n], "local"))
+    main += g.stmts(env, 2, r.randint(1, 4))
+    # (the call is not made inside println: println re-evaluates an argument that failed - finding C01-println-retry)
+    if funcs and (where_attack not in ("func", "func-local", "static")) and r.random() < 0.7:
+        cx = g.var()
+        main.append("(decl 0 0 long %d (call 1 %d))" % (cx, r.randint(0, 5)))
+        main.append("(print 1 (v %d))" % cx)
+    if where_attack in ("main", "nested", "loop"):
+        a, meta = attack_stmt(consts + lconst, carrs + lcarr)
+        if a is not None:
+            info["attack"] = meta
+            pre = "(print 1 200)"
+            if where_attack == "main":
+                main += [pre, a]
+            elif where_attack == "nested":
+                main.append("(if 1 ((block %s (block %s))) ())" % (pre, a))
+            else:
+                i = g.var()
+                k = r.randint(0, 2)
+                main.append("(for ((decl 0 0 int %d 0)) (bin < (v %d) 3) ((casg + (v %d) 1)) ((print 1 (v %d)) (if (bin == (v %d) %d) (%s) ())))"
+                            % (i, i, i, i, i, k, a))
+    elif where_attack in ("func", "func-local", "static"):
+        cx = g.var()
+        main.append("(decl 0 0 long %d (call 1 %d))" % (cx, r.randint(0, 5)))
+        main.append("(print 1 (v %d))" % cx)
+    # statements after the attempt: must not run when it was made
+    main.append("(print 1 300)")
+    for x, _ in (consts + lconst)[:3]:
+        main.append("(print 1 (v %d))" % x)
+    for x, dims, _ in (carrs + lcarr)[:2]:
+        main.append("(print 1 (idx %d %s))" % (x, " ".join("0" for _ in dims)))
+    return "(P (%s) (%s) (%s))" % (" ".join(globs), " ".join(funcs), " ".join(main)), info
